@@ -975,6 +975,7 @@ class Prop(Check):
     def compare(self, case, obs, out):
         if "err" in out:
             return f"model rejected the request: {out}"
+        xprev = obs["start"]["extra"]
         for k, (st, (mo, mstates, mtmps)) in enumerate(zip(obs["steps"], self.model_states(case, obs, out))):
             io_ = self.outcome(st)
             if io_ != mo:
@@ -988,8 +989,13 @@ class Prop(Check):
                 if s is not None and self.norm_state(s) != mstates[DEST + p] and not (
                         s == st["states"][p] and s.startswith("complete")):
                     return f"run {k}: the file behind output file {p} is {s} after the run, model says {mstates[DEST + p]}"
-            if bool(st["extra"]) != any(mtmps):
-                return f"run {k}: leftover files {st['extra']}, model says temporary present = {any(mtmps)}"
+            # the model never creates a leftover: a temporary sibling is there after a run only if a stale one was
+            # there before and the run was skipped.  That the modelled code also clears a stale file away when it
+            # does run is incidental (not compared): only new or changed leftovers count
+            left = [x for x in st["extra"] if x not in xprev]
+            if left or (any(mtmps) and not st["extra"]):
+                return f"run {k}: leftover files {st['extra']} (new or changed: {left}), model says temporary present = {any(mtmps)}"
+            xprev = st["extra"]
             # operation level: is the output file touched before the last operation of the export
             info = out["steps"][k].get("ops")
             if info is not None:
@@ -1034,8 +1040,6 @@ class Prop(Check):
                 if a != b and not (p == own and not st["raised"] and st["touched"] and b == want):
                     return (f"run {k} ({'failed at %s%s' % (run['crash'], how) if st['raised'] else 'returned normally'}): "
                             f"the file behind output file {p} ({obs['init'][p]['kind']}) changed from {a} to {b}")
-            if (st["raised"] or not st["touched"]) and st["entries"] != eprevs:
-                return f"run {k}: nothing generated, but the directory entries of the output files changed from {eprevs} to {st['entries']}"
             if st["raised"]:
                 if not st["triggered"]:
                     return f"run {k}: the generator raised {st['raised']} without an injected failure"
@@ -1063,6 +1067,9 @@ class Prop(Check):
                         return f"run {k}: a partially written file ({prev}) was skipped as already generated"
                     if state != prev:
                         return f"run {k}: skipped but the output changed from {prev} to {state}"
+            if (st["raised"] or not st["touched"]) and st["entries"] != eprevs:
+                return (f"run {k} ({'failed' if st['raised'] else 'skipped'}): the kinds of the directory entries of the "
+                        f"output files changed from {eprevs} to {st['entries']}")
             prevs, dprevs, eprevs, xprev = list(st["states"]), list(st["dstates"]), list(st["entries"]), list(st["extra"])
         return None
 
